@@ -4,22 +4,39 @@ ID=$1; WT=$2; S=/verif/seeded/$ID; OUT=/tmp/confirm/$ID; mkdir -p $OUT
 cd $WT || exit 9
 git checkout -q -- . ; git status --short | grep -v '^??' && { echo "worktree dirty"; exit 9; }
 DEMO=$(ls $S | grep -E '^demo.*\.py$' | head -1)
-run_demo() { if echo $DEMO | grep -q test; then PYTHONPATH=$WT /venv/bin/python -m pytest -q -p no:cacheprovider $S/$DEMO; else PYTHONPATH=$WT /venv/bin/python $S/$DEMO; fi; }
+run_demo() { if echo $DEMO | grep -q test; then PYTHONPATH=$WT /venv/bin/python -m pytest -q -p no:cacheprovider --basetemp=$OUT/btd $S/$DEMO; else PYTHONPATH=$WT /venv/bin/python $S/$DEMO; fi; }
 run_demo > $OUT/demo_clean.log 2>&1; RC_CLEAN=$?
 git apply $S/patch.diff || { echo "patch does not apply"; exit 9; }
 /venv/bin/python -m compileall -q pyxel > /dev/null || { echo "does not compile"; git checkout -q -- .; exit 9; }
 run_demo > $OUT/demo_patched.log 2>&1; RC_PATCHED=$?
-rm -rf $OUT/bt; /venv/bin/python -m pytest -q -p no:cacheprovider -n 8 --timeout=900 --continue-on-collection-errors --basetemp=$OUT/bt --junitxml=$OUT/junit.xml > $OUT/suite.log 2>&1
-git checkout -q -- . ; rm -rf None output $OUT/bt
-/venv/bin/python - $OUT/junit.xml <<'PY' > $OUT/suite_cmp.txt
+rm -rf $OUT/bt
+/venv/bin/python -m pytest -q -p no:cacheprovider -n 8 --timeout=900 --continue-on-collection-errors --basetemp=$OUT/bt --junitxml=$OUT/junit.xml > $OUT/suite.log 2>&1
+cat > $OUT/cmp.py <<'PY'
 import json,sys,xml.etree.ElementTree as ET
 sp=set(json.load(open('/root/.vp/BASELINE.json'))['stable_pass'])
 passed=set()
-for tc in ET.parse(sys.argv[1]).iter('testcase'):
-    if not [c for c in tc if c.tag in('failure','error','skipped')]:
-        passed.add(tc.get('classname')+'::'+tc.get('name'))
-print(len(sp-passed))
-for x in sorted(sp-passed)[:10]: print(x)
+for fn in sys.argv[1:]:
+    try:
+        for tc in ET.parse(fn).iter('testcase'):
+            if not [c for c in tc if c.tag in('failure','error','skipped')]:
+                passed.add(tc.get('classname')+'::'+tc.get('name'))
+    except Exception as e:
+        pass
+miss=sorted(sp-passed)
+print(len(miss))
+files=sorted({m.split('::')[0].replace('.','/')+'.py' for m in miss})
+print(' '.join(files))
+for x in miss[:10]: print(x)
 PY
+/venv/bin/python $OUT/cmp.py $OUT/junit.xml > $OUT/suite_cmp.txt
 MISSING=$(head -1 $OUT/suite_cmp.txt)
+if [ "$MISSING" != "0" ]; then
+  # order/xdist dependent tests: re-run the affected files serially, still with the patch applied
+  FILES=$(sed -n 2p $OUT/suite_cmp.txt)
+  rm -rf $OUT/bt2
+  /venv/bin/python -m pytest -q -p no:cacheprovider --timeout=900 --basetemp=$OUT/bt2 --junitxml=$OUT/junit2.xml $FILES > $OUT/suite2.log 2>&1
+  /venv/bin/python $OUT/cmp.py $OUT/junit.xml $OUT/junit2.xml > $OUT/suite_cmp2.txt
+  MISSING="$MISSING->$(head -1 $OUT/suite_cmp2.txt)(after serial re-run of: $FILES)"
+fi
+git checkout -q -- . ; rm -rf None output outputs $OUT/bt $OUT/bt2 $OUT/btd
 echo "$ID demo_clean_rc=$RC_CLEAN demo_patched_rc=$RC_PATCHED stable_pass_missing=$MISSING $(tail -1 $OUT/suite.log)" | tee $OUT/result.txt
